@@ -96,6 +96,7 @@ class RefCoapAccessory:
                 tid = f.get("tid", tid)
                 ctl = f.get("ctl", ctl)
                 st = f.get("status", st)
+                rb = f.get("body", rb)
             out += struct.pack("<BBBH", ctl, tid, st, len(rb)) + rb
         if action and "skip" in action:
             s["txc"] += action["skip"]
